@@ -2124,6 +2124,11 @@ class Exec:
             return self.abs_apply("meth:super." + name, [obj.obj] + list(args), kwargs)
         if isinstance(obj, Opaque) and self.abstract:
             if name in self._MUTATING or name.startswith("set"):
+                if self.ctx.options.get("frames") and name in ("sort", "fill", "put", "itemset", "partition", "resize", "byteswap") \
+                        and any(obj is v for v in getattr(self.st, "param_objs", {}).values()):
+                    # an in-place ndarray method on an argument: the caller's array is written (ownership frame)
+                    self.oblige("frame", False, f"in-place method .{name}() on an argument owned by the caller: {ast.unparse(n)[:70]}", n,
+                                static=False, backend="ghost-static", tag="caller")
                 raise Unsupported(f"method .{name}() may mutate an abstract object at {loc_of(fr, n)}")
             return self.abs_apply("meth:" + name, [obj] + list(args), kwargs)
         raise Unsupported(f"method .{name}() on {type(obj).__name__}" + (f"<{obj.cls}>" if isinstance(obj, Obj) else "")
